@@ -40,15 +40,28 @@ Qed.
 (* ---------------- BatchUpdateBlobs: the disk layer ---------------- *)
 
 Lemma bu_one_limit c d e :
-  (forall n, bu_comp e <> COther n) -> b_clean (bu_body e) = true -> bu_size e > c_maxblob (fc_disk c) ->
+  b_clean (bu_body e) = true -> bu_size e > c_maxblob (fc_disk c) ->
   bu_one c d e = (d, bad).
 Proof.
-  intros HC Hclean HL. unfold bu_one.
-  destruct (bu_comp e) as [| |n] eqn:EC; [| |exfalso; eapply HC; reflexivity].
+  intros Hclean HL. unfold bu_one.
+  destruct (bu_comp e) as [| |n] eqn:EC; [| |reflexivity].
   - cbn. destruct (b_len (bu_body e) =? bu_size e) eqn:E; cbn; [|reflexivity].
     rewrite disk_put_refused by lia. reflexivity.
   - rewrite Hclean. cbn. destruct (b_len (bu_body e) =? bu_size e) eqn:E; cbn; [|reflexivity].
     rewrite disk_put_refused by lia. reflexivity.
+Qed.
+
+(* a blob in a supported encoding whose decoded length is the digest size goes to the disk layer as it
+   is: BatchUpdateBlobs has no other check of its own *)
+Lemma bu_one_wellformed c d e :
+  (forall n, bu_comp e <> COther n) -> b_clean (bu_body e) = true -> b_len (bu_body e) = bu_size e ->
+  bu_one c d e =
+  (let '(d', r) := disk_put c d CAS (bu_hash e) (bu_size e) (stream_of (bu_body e)) (bu_rnd e) in (d', put_status EInternal r)).
+Proof.
+  intros HC Hclean HL. unfold bu_one.
+  destruct (bu_comp e) as [| |n] eqn:EC; [| |exfalso; eapply HC; reflexivity].
+  - cbn. rewrite HL. rewrite Z.eqb_refl. reflexivity.
+  - rewrite Hclean. cbn. rewrite HL. rewrite Z.eqb_refl. reflexivity.
 Qed.
 
 (* ---------------- ByteStream.Write ---------------- *)
@@ -63,7 +76,7 @@ Qed.
 
 Lemma bs_write_within_limit c d z hash size m0 rest ab b rnd :
   0 <= size <= fc_grpc_max c -> validate_hash hash size = true ->
-  snd (fst (disk_contains c d CAS hash size)) = false -> wm_off m0 = 0 ->
+  bs_shortcut (snd (fst (disk_contains c d CAS hash size))) hash size = false -> wm_off m0 = 0 ->
   bs_write c d (WN z hash size) (m0 :: rest) ab b rnd =
   (let d1 := fst (fst (disk_contains c d CAS hash size)) in
    let '(piped, e) := recv_loop z size 0 true (m0 :: rest) ab in
@@ -73,7 +86,7 @@ Proof.
   intros HL HV HC HO. unfold bs_write.
   replace (size <? 0) with false by lia. rewrite HV. cbn [negb].
   replace (size >? fc_grpc_max c) with false by lia.
-  destruct (disk_contains c d CAS hash size) as [[d1 ex] fs]. cbn in HC. subst ex. cbn [fst].
+  destruct (disk_contains c d CAS hash size) as [[d1 ex] fs]. cbn [fst snd] in *. rewrite HC.
   rewrite HO. reflexivity.
 Qed.
 
